@@ -150,6 +150,22 @@ def rk_case(case):
                 break
             tn = float(np.max(np.abs(m.atol + np.max(np.abs(m.rtol * ycur))))) * 0.5 if implicit else None
             check_rk_state(r, m, M, f, L, tcur, ycur, h, dT, dY, dtype, dict(case, call=2), tol_newton=tn, label=" (call 2, unrelated start)")
+    # a second object: the right-hand side reads a constant, and the constant CHANGES between a step and its exact continuation (same end point, bitwise):
+    # nothing remembered from the first call - an end slope, a first stage - is valid for the second one
+    if not implicit and case["rhs"] in ("tanh_net", "linear_t", "logistic") and not isinstance(case["t"], (list, tuple)):
+        def fg(t_, y_, gain=1.0, **kw):
+            return f(t_, y_) * y_.dtype.type(gain)
+        m2 = M(shape, dtype=np.dtype(dtype), rtol=dtype(1e30), atol=dtype(1e30))
+        rg = de.DiffRHS(fg)
+        t_a, y_a = val(case["t"], dtype), y.copy()
+        hh = val(case["h"], dtype)
+        try:
+            _, (dTa, dYa) = m2(rg, t_a, y_a, dict(gain=1.0), hh)
+            t_b, y_b = t_a + dTa, (y_a + dYa).astype(dtype)
+            _, (dTb, dYb) = m2(rg, t_b, y_b, dict(gain=1.5), hh)
+            check_rk_state(r, m2, M, (lambda t_, y_: f(t_, y_) * LD(1.5)), 1.5 * L, t_b, y_b, hh, dTb, dYb, dtype, dict(case, call="constants-changed"), label=" (continuation with another constant)")
+        except Exception:
+            r.add("not_accepted")
     r.out(("rk", case["method"], case["dtype"], case["rhs"], len(shape), "implicit" if implicit else "explicit"))
     if case.get("sample"):
         r.samples.append(dict(case))
